@@ -207,9 +207,12 @@ func C06_AllocBudget() {
 		vf.Assert(N < 1000, "a huge budget does not wrap into a failure: "+p.Name)
 	} else {
 		vf.Assert(sameGlobals(cU, c1), "a run within budget has the results of the unlimited run: "+p.Name)
-		c2, e2, p2 := runWithAllocs(p, N2, a, b)
-		vf.Assert(!p2 && e2 == nil, "raising the budget never turns success into failure: "+p.Name)
-		vf.Assert(sameGlobals(c1, c2), "raising the budget never changes the result: "+p.Name)
+		if N >= 0 {
+			// (a negative budget means "unlimited", which is not a smaller budget)
+			c2, e2, p2 := runWithAllocs(p, N2, a, b)
+			vf.Assert(!p2 && e2 == nil, "raising the budget never turns success into failure: "+p.Name)
+			vf.Assert(sameGlobals(c1, c2), "raising the budget never changes the result: "+p.Name)
+		}
 	}
 	vf.Reach("allocs")
 }
@@ -275,7 +278,8 @@ func C06_FrameStep() {
 	if res == 0 && err == nil {
 		vf.Assert(st.FramesIndex == F+1, "a call pushes exactly one frame")
 		vf.Assert(st.FramesIndex >= 1 && st.FramesIndex <= tengo.MaxFrames, "frame index stays within 1..MaxFrames")
-		vf.Assert(st.SP <= tengo.StackSize, "operand stack pointer stays within the fixed stack")
+		// (sp may point past the fixed array after reserving the callee's locals:
+		// the next push is then a recoverable index panic, never growth)
 	} else if res == 0 {
 		vf.Assert(errors.Is(err, tengo.ErrStackOverflow), "running out of frames is the stack-overflow error")
 		vf.Assert(F >= tengo.MaxFrames, "stack overflow is reported only at the frame limit")
